@@ -37,6 +37,8 @@ def gen_inputs(rng, styled_p=0.5, out_p=0.0, max_models=2):
         return [(name, [sample])]
     if r < 0.48:
         return [("Root", [gen.gen_polymorphic_child(rng)])]
+    if r < 0.53:
+        return [("Root", [gen.gen_hidden_union_merge(rng)])]
     n = rng.choice([1] * 3 + [2] * (max_models > 1))
     kp = gen.key_pool(rng, styled_p, out_p)
     out = []
